@@ -164,6 +164,93 @@ theorem read_observe {s : State} (h : Sep s) (a : ReadApi) :
 
 theorem read_sep {s : State} (h : Sep s) (a : ReadApi) : Sep (api s a.toApi).1 := api_sep h _
 
+/-! ## what the reads hand out is new and client-held -/
+
+theorem allocHeld_client_mono (s : State) (c : Cell) {r : Ref} (h : s.client r = true) :
+    (allocHeld s c).1.client r = true := by
+  simp [allocHeld, alloc, hold, h]
+
+theorem handOutEv_client_mono (s : State) (o : EvObj) {r : Ref} (h : s.client r = true) :
+    (handOutEv s o).1.client r = true :=
+  allocHeld_client_mono _ _ (allocHeld_client_mono _ _ h)
+
+theorem handOutEv_ref (s : State) (o : EvObj) : (handOutEv s o).2 = s.next + 1 := rfl
+
+theorem handOutEv_holds (s : State) (o : EvObj) : (handOutEv s o).1.client (s.next + 1) = true := by
+  simp [handOutEv, allocHeld, alloc, hold]
+
+theorem handOutEvs_client_mono : ∀ (l : List Ref) (s : State) {r : Ref}, s.client r = true →
+    (handOutEvs s l).1.client r = true
+  | [], _, _, h => h
+  | x :: rest, s, r, h => by
+    unfold handOutEvs
+    split
+    · exact handOutEvs_client_mono rest s h
+    · exact handOutEvs_client_mono rest _ (handOutEv_client_mono s _ h)
+
+theorem handOutEvs_cons_some {s : State} {x : Ref} {o : EvObj} (h : evAt s x = some o) (rest : List Ref) :
+    handOutEvs s (x :: rest) =
+      ((handOutEvs (handOutEv s o).1 rest).1, (handOutEv s o).2 :: (handOutEvs (handOutEv s o).1 rest).2) := by
+  rw [handOutEvs]
+  simp only [h]
+
+theorem handOutEvs_cons_none {s : State} {x : Ref} (h : evAt s x = none) (rest : List Ref) :
+    handOutEvs s (x :: rest) = handOutEvs s rest := by
+  rw [handOutEvs]
+  simp only [h]
+
+theorem handOutEvs_fresh : ∀ (l : List Ref) (s : State) (r : Ref), r ∈ (handOutEvs s l).2 →
+    s.next ≤ r ∧ (handOutEvs s l).1.client r = true
+  | [], _, r, h => by cases h
+  | x :: rest, s, r, h => by
+    cases ho : evAt s x with
+    | none =>
+      rw [handOutEvs_cons_none ho] at h ⊢
+      exact handOutEvs_fresh rest s r h
+    | some o =>
+      rw [handOutEvs_cons_some ho] at h ⊢
+      rcases List.mem_cons.mp h with rfl | h
+      · exact ⟨Nat.le_add_right _ 1, handOutEvs_client_mono rest _ (handOutEv_holds s o)⟩
+      · obtain ⟨h1, h2⟩ := handOutEvs_fresh rest _ r h
+        exact ⟨Nat.le_trans (Nat.le_add_right s.next 2) h1, h2⟩
+/-- the event objects `get_events` returns are new (allocated by this call) and client-held -/
+theorem getEvents_fresh (s : State) (b : String) (limit : Int) (st en : Option Int) (rs : List Ref)
+    (h : (getEvents s b limit st en).2 = .refs rs) :
+    ∀ r ∈ rs, s.next ≤ r ∧ (getEvents s b limit st en).1.client r = true := by
+  cases hl : lookup s.store b with
+  | none => simp only [getEvents, hl] at h; cases h
+  | some p =>
+    simp only [getEvents, hl] at h ⊢
+    injection h with h
+    subst h
+    exact fun r hr => handOutEvs_fresh _ s r hr
+
+/-- the event object `get_event` returns is new and client-held -/
+theorem getEvent_fresh (s : State) (b : String) (eid : Int) (r : Ref)
+    (h : (getEvent s b eid).2 = .optRef (some r)) :
+    s.next ≤ r ∧ (getEvent s b eid).1.client r = true := by
+  cases hl : lookup s.store b with
+  | none => simp only [getEvent, hl] at h; cases h
+  | some p =>
+    cases hf : p.2.reverse.find? (fun x => idOf s x = some eid) with
+    | none => simp only [getEvent, hl, hf] at h; cases h
+    | some x =>
+      cases ho : evAt s x with
+      | none => simp only [getEvent, hl, hf, ho] at h; cases h
+      | some o =>
+        simp only [getEvent, hl, hf, ho] at h ⊢
+        injection h with h
+        injection h with h
+        subst h
+        exact ⟨Nat.le_add_right _ 1, handOutEv_holds s _⟩
+
+/-- under the separation invariant a client-held object is not reachable from the store -/
+theorem held_not_storeReach {s : State} (h : Sep s) {r : Ref} (hr : s.client r = true) :
+    ¬ storeReach s r := by
+  intro hs
+  rw [h.sep r hs] at hr
+  cases hr
+
 /-! ## query steps -/
 
 /-- what a running query does to the datastore's objects: a read API call, or a mutation of an
